@@ -148,8 +148,35 @@ static int full(int n, int k, int l, int bgbit, int t, int bb, unsigned seed, in
     fflush(stdout);
     return 0;
 }
+// ---- full size external products under real layouts: noiseless TGSW encryptions (uniform masks from the library generator) of +-X^j under a random ring key,
+// TLWE samples with random and extreme coefficients; printed: the phase of the sample and of the product under that key at sampled positions ----
+static int extfull(int k, int l, int bgbit, unsigned seed, int cases) {
+    const int N = 1024; uint32_t sv[2] = {seed, 0xe4f0u}; tfhe_random_generator_setSeed(sv, 2);
+    TLweParams* tp = new_TLweParams(N, k, 0., 0.1); TGswParams* gp = new_TGswParams(l, bgbit, tp);
+    TGswKey* key = new_TGswKey(gp); tGswKeyGen(key); VhRng rng(seed);
+    TGswSample* g = new_TGswSample(gp); TGswSampleFFT* gf = new_TGswSampleFFT(gp); IntPolynomial* m = new_IntPolynomial(N);
+    TLweSample* c = new_TLweSample(tp); TLweSample* r = new_TLweSample(tp); TorusPolynomial* pc = new_TorusPolynomial(N); TorusPolynomial* pr = new_TorusPolynomial(N);
+    for (int q = 0; q < cases; q++) {
+        int j = q < 3 ? q * (N / 2 - 1) % N : (int)rng.below(N), sgn = (q % 2) ? -1 : 1, pat = q % 6;
+        intPolynomialClear(m); m->coefs[j] = sgn; tGswSymEncrypt(g, m, 0., key); tGswToFFTConvert(gf, g, gp);
+        for (int cc = 0; cc <= k; cc++) for (int i = 0; i < N; i++) { uint32_t v;
+            switch (pat) { case 0: v = rng.u32(); break; case 1: v = 0x80000000u; break; case 2: v = 0x7fffffffu; break; case 3: v = (i & 1) ? 0x80000000u : 0x7fffffffu; break;
+                           case 4: v = cc < k ? 0u : 0x80000000u; break; default: v = cc < k ? rng.u32() : (0x80000000u >> (i % 31)); }
+            c->a[cc].coefsT[i] = (Torus32)v; }
+        c->current_variance = 0; tLwePhase(pc, c, &key->tlwe_key);
+        for (int f = 0; f < 3; f++) {       // 0: FFT in place, 1: coefficient domain in place, 2: coefficient domain into a separate result
+            if (f == 0) { tLweCopy(r, c, tp); tGswFFTExternMulToTLwe(r, gf, gp); } else if (f == 1) { tLweCopy(r, c, tp); tGswExternMulToTLwe(r, g, gp); } else tGswExternProduct(r, g, c, gp);
+            tLwePhase(pr, r, &key->tlwe_key);
+            std::vector<long> pos; std::vector<uint32_t> vc, vr; for (int u = 0; u < 24; u++) { int i = u < 4 ? (u * 341) % N : (int)rng.below(N); int src = ((i - j) % N + N) % N; pos.push_back(i); vr.push_back((uint32_t)pr->coefsT[i]); vc.push_back((uint32_t)pc->coefsT[src]); }
+            VH_B; vh_s("k", "extfull"); VH_C; vh_i("f", f); VH_C; vh_i("kk", k); VH_C; vh_i("l", l); VH_C; vh_i("bg", bgbit); VH_C; vh_i("j", j); VH_C; vh_i("sgn", sgn); VH_C; vh_i("pat", pat); VH_C; il("pos", pos); VH_C; wl("pc", vc); VH_C; wl("pr", vr); VH_E;
+        }
+    }
+    fflush(stdout);
+    return 0;
+}
 int main(int argc, char** argv) {
     vh_init();
+    if (argc >= 2 && !strcmp(argv[1], "extfull")) return extfull((int)vh_arg(argc, argv, "--k", 1), (int)vh_arg(argc, argv, "--l", 2), (int)vh_arg(argc, argv, "--bg", 10), (unsigned)vh_arg(argc, argv, "--seed", 1), (int)vh_arg(argc, argv, "--cases", 24));
     if (argc >= 2 && !strcmp(argv[1], "full")) return full((int)vh_arg(argc, argv, "--n", 8), (int)vh_arg(argc, argv, "--k", 1), (int)vh_arg(argc, argv, "--l", 3), (int)vh_arg(argc, argv, "--bg", 7), (int)vh_arg(argc, argv, "--t", 8), (int)vh_arg(argc, argv, "--bb", 2), (unsigned)vh_arg(argc, argv, "--seed", 1), (int)vh_arg(argc, argv, "--cases", 6144));
     if (argc >= 3 && !strcmp(argv[1], "replay")) {       // several instances one after the other in one process (state kept between calls of different shapes shows here)
         int rc = 0, T = (int)vh_arg(argc, argv, "--threads", 1); unsigned seed = (unsigned)vh_arg(argc, argv, "--seed", 1); const char* only = vh_sarg(argc, argv, "--only", "");
